@@ -47,8 +47,23 @@ func responseFromExpr(r *expr.HTTPResponseExpr, bodies map[int][]*openapi.Schema
 			headers = make(map[string]*HeaderRef)
 		}
 		if len(cookies) == 1 {
-			for _, v := range cookies {
-				headers["Set-Cookie"] = v
+			// The value of a Set-Cookie header is "name=value" followed by
+			// the cookie attributes: it does not conform to the schema of
+			// the attribute stored in the cookie.
+			for name, v := range cookies {
+				desc := fmt.Sprintf("Sets cookie %q", name)
+				if v.Value.Description != "" {
+					desc += ": " + v.Value.Description
+				}
+				headers["Set-Cookie"] = &HeaderRef{
+					Value: &Header{
+						Description: desc,
+						Required:    v.Value.Required,
+						Schema: &openapi.Schema{
+							Type: "string",
+						},
+					},
+				}
 			}
 		} else {
 			// Generic cookies header
